@@ -111,7 +111,7 @@ def record(case, scratch, stats, fail_at=None):
         disk = []
         for n in NAMES:
             p = os.path.join(sut.folder, n)
-            disk.append(builtins.open(p, "rb").read() if os.path.exists(p) else None)
+            disk.append(M.ORIG_OPEN(p, "rb").read() if os.path.exists(p) else None)
         sut.close()
     return log, facts, rules, disk, feats, crashed
 
@@ -247,7 +247,7 @@ def check_cut(folder, files, rules, default, facts, probes, stats, label, lite=T
             if os.path.exists(p):
                 os.remove(p)
         else:
-            with builtins.open(p, "wb") as f:
+            with M.ORIG_OPEN(p, "wb") as f:
                 f.write(files[n])
     try:
         t = Traph(folder=folder, default_webentity_creation_rule=default, webentity_creation_rules=dict(rules))
